@@ -325,6 +325,9 @@ func Walk(v Visitor, node Node) {
 		if n.Type != nil {
 			Walk(v, n.Type)
 		}
+		if n.Tag != nil {
+			Walk(v, n.Tag)
+		}
 		walkList(v, n.Values)
 		if n.Comment != nil {
 			Walk(v, n.Comment)
